@@ -162,7 +162,7 @@ def history(cfg, case, out):
             atk.to_server(addr, d, label)
             w.step()
             # follow up from the same address with an encrypted-looking datagram and a forged challenge
-            atk.to_server(addr, A.forge_crc("c2s", 3, 2, 1, 0, [(2, 3, b"\\x00" * 8)], int(w.clock.now)), "forged:challenge-plaintext")
+            atk.to_server(addr, A.forge_crc("c2s", 3, 2, 1, 0, [(2, 3, bytes(8))], int(w.clock.now)), "forged:challenge-plaintext")
             w.step()
 
         # ---------- phase: established, mixed honest traffic with pending sends and fragments in flight
